@@ -973,6 +973,12 @@ def check_C13(tier):
     for n in pos[:(6 if quick else 30)]:
         for t in (30, 60, 120, 250) + (() if quick else (500,)):
             add(n, "movetime", "movetime", movetime=t)
+    # limits are per search: after a node-limited / time-limited / depth-1 / clock search on the SAME Search object (as the
+    # protocol loop uses it) a depth-limited search completes its iterations, a node-limited one is bound by its own limit only
+    for n in pos[:(8 if quick else 40)]:
+        for pre in ("limit-nodes", "limit-movetime", "limit-depth", "limit-clock"):
+            add(n, "depth", "depth", depth=4, prefill=pre)
+            add(n, "nodes", "nodes", nodes=3000, prefill=pre)
     # real searches under the clock with a budget close to the clock itself (one move to go; an increment larger than the clock):
     # whatever the search adds to its budget while it runs (extra time), what it is allowed to take and what it takes stay within
     # the clock
